@@ -129,6 +129,24 @@ PLAN = {
         "trusted_base": BASE_TRUST,
         "assumptions": BASE_ASSUME + ["what opening over a torn tail does is predicted by the driver from the tar-reader contract (Model/Cut.lean); writes after a torn, unaligned tail are outside the model (finding F19)"],
     },
+    "C18": {
+        "streams": {
+            "quick": [{"stream": "keys", "args": ["-n", "96", "-workers", "16"], "timeout": 1500}],
+            "thorough": [{"stream": "keys", "args": ["-n", "1600", "-workers", "16"], "timeout": 7000}],
+        },
+        "generated": ["Stfs/Gen/KeyWrap.lean (pkg/utility/keygen.go, pkg/keys/identity.go: per format, under which password condition the private half is wrapped / unwrapped; password and key bytes passed unchanged)"],
+        "trusted_base": BASE_TRUST,
+        "assumptions": ["the primitives are ideal in the model: scrypt/age, OpenPGP S2K locking and minisign's KDF unwrap exactly under the wrapping password; decryption succeeds exactly with the private half of the pair encrypted to; a signature verifies exactly under the signing pair's public half (the real libraries are exercised by the correspondence, not proved)"],
+    },
+    "C08": {
+        "streams": {
+            "quick": [{"stream": "forge", "args": ["-n", "16", "-len", "10", "-workers", "16", "-rs", "20,3", "-pipes", "++minisign;++pgp;+age+minisign;gzip+pgp+pgp;zstandard+age+pgp;lz4+pgp+minisign", "-keys", "/verif/work/keys"], "timeout": 2400}],
+            "thorough": [{"stream": "forge", "args": ["-n", "96", "-len", "9", "-workers", "16", "-rs", "20,3,1", "-allcuts", "-pipes", ";".join("%s+%s+%s" % (c, e, sg) for c in ["", "gzip", "zstandard"] for e in ["", "age", "pgp"] for sg in ["minisign", "pgp"]), "-keys", "/verif/work/keys"], "timeout": 14000}],
+        },
+        "generated": ["Stfs/Gen/Verify.lean (pkg/signature/verify.go: VerifyHeader skeleton, per-format returns of VerifyString; every caller of recovery.Index and its verifier callback; Fetch/Query verification sites and Fetch's raw-copy condition)"],
+        "trusted_base": BASE_TRUST,
+        "assumptions": ["signatures are ideal in the model: a well-formed signature verifies exactly under the public half of the key that made it and over the message it was made over; unforgeability is a hypothesis on the tape (Unforged), not an axiom", "encoding/json round-trips a tar.Header (the embedded header) — exercised by every rebuild of the correspondence"],
+    },
     "C17": {
         "streams": {
             "quick": [fs(96, 18, "C17", mode="foreign", rs="20,3,1")],
